@@ -31,7 +31,10 @@ from beartype._data.kind.datakindiota import SENTINEL
 from beartype._data.typing.datatyping import LexicalScope
 from beartype._data.typing.datatypingport import Hint
 from beartype._util.error.utilerrraise import reraise_exception_placeholder
-from beartype._util.error.utilerrwarn import reissue_warnings_placeholder
+from beartype._util.error.utilerrwarn import (
+    catch_warnings_lock,
+    reissue_warnings_placeholder,
+)
 from beartype._util.kind.maplike.utilmapset import update_mapping
 from typing import NoReturn
 from warnings import catch_warnings
@@ -105,7 +108,7 @@ def code_check_return(decor_func: BeartypeCallDecorFuncData) -> str:
     try:
         # With a context manager "catching" *ALL* non-fatal warnings emitted
         # during this logic for subsequent "playback" below...
-        with catch_warnings(record=True) as warnings_issued:
+        with catch_warnings_lock, catch_warnings(record=True) as warnings_issued:
             # Sanified hint metadata sanified from this possibly insane return.
             # If this hint is unsupported by @beartype, raise an exception.
             #
